@@ -185,7 +185,12 @@ def check_datagram(S, H, msgs, multicast, ctx, endpoint=None, noise=None, repeat
     p = ep.p
     data = b"".join(refwire.encode_someip(m) for m in msgs)
     addr = ("192.0.2.7", 30501)
-    p.datagram_received(data, addr, multicast)
+    if debug:
+        p.datagram_received(data, addr, multicast)
+    else:
+        # through the adapter that create_unicast_endpoint() / create_endpoints() put between the socket and the protocol object
+        S.DatagramProtocolAdapter(p, is_multicast=multicast).datagram_received(data, addr)
+        ctx.count("datagrams_delivered_through_the_endpoint_adapter")
     if repeat:
         # the same bytes again from the same peer (an unchanged cyclic event bundle, a repeated fire-and-forget call with
         # session handling off): every datagram is delivered, whatever came before it
